@@ -423,9 +423,9 @@ def check_batch(S, code, words, entries, np, R, tag=None):
             d = R.exact_double(x) if x not in R.MARKERS else None
             wit = {'code': cname, 'entry': name, 'form': form, 'word': word, 'bytes': word.to_bytes(size, 'big').hex(),
                    'passed': xs[i] if not isinstance(xs[i], bytes) else None, 'observed': text, 'observed_kind': kind,
-                   'expected': str(x), 'expected_float': d.hex() if isinstance(d, float) else None, 'build': S.under or 'plain'}
+                   'expected': R.show_exact(x), 'expected_float': d.hex() if isinstance(d, float) else None, 'build': S.under or 'plain'}
             rec.violation('exact_reference', 'value', '%s %s(%s word %#x) -> %s, the standard defines %s' % (
-                cname, name, form, word, text if kind != 'float' else repr(got[i]), x if d is None else repr(d)), wit,
+                cname, name, form, word, text if kind != 'float' else repr(got[i]), R.show_exact(x) if d is None else repr(d)), wit,
                 exc=got[i].exc if isinstance(got[i], Raised) else None)
     return results
 
@@ -655,9 +655,14 @@ def leg_b_wide(S, mods, RPmods, np, R, n_random, codes=None, which=('user', 'p',
         if code == 50:
             # 97% of the family has no float64 value and cannot be asserted: keep all assertable words and 1/64 of the rest
             rep = R.np_lis50(mine)[1]
+            e16 = ((mine >> 16) & 0xFFFF).astype(np.int64)
+            e16 = np.where(e16 >= 0x8000, e16 - 0x10000, e16)
+            in_band = rep & (e16 >= -1200)                          # has a float64 value (or just underflows)
+            deep = rep & (e16 < -1200)                              # deep underflow: the value is zero
+            extreme = deep & (e16 <= -32768 + 40)                   # the most negative exponents, all of them
             n_non = int((~rep).sum())
             S.rec.add('LIS50_stratified_words_without_float64_value_skipped', n_non - (n_non + 63) // 64)
-            mine = np.concatenate([mine[rep], mine[~rep][::64]])
+            mine = np.concatenate([mine[in_band], mine[extreme], mine[deep & ~extreme][::24], mine[~rep][::64]])
             label = 'all exponent-field x boundary-mantissa words that have a float64 value (+1/64 of the others)'
         if S.under:
             mine = mine[::max(1, len(mine) // 4000)]
@@ -1251,7 +1256,7 @@ def finish_harness(S, h, R):
                     rec.violation('exact_reference', 'value', 'LISRepCode.cpp _%s(%#x) -> %r, the standard defines %s' % (kind, word, got, x),
                                   {'code': 'LIS%d' % code, 'entry': 'LISRepCode.cpp:_' + kind, 'form': 'unsigned', 'word': word,
                                    'bytes': word.to_bytes(R.LIS_SIZE[code], 'big').hex(), 'observed': got.hex(), 'observed_kind': 'float',
-                                   'expected': str(x), 'build': 'harness-asan'})
+                                   'expected': R.show_exact(x), 'build': 'harness-asan'})
             elif kind == 'roundtrip':
                 val = struct.unpack('<d', struct.pack('<Q', int(kv['value'], 16)))[0]
                 red = struct.unpack('<d', struct.pack('<Q', int(kv['redecoded'], 16)))[0]
